@@ -25,69 +25,44 @@ def validate(ctx, events, table, label):
     return accepted, devs, res
 
 
-def run(ctx, prop="C08"):
-    ctx.mc("FzfPipeline", "MC_Pipeline_quick.cfg" if ctx.quick else "MC_Pipeline.cfg", timeout=3000, workers=8 if ctx.quick else 12,
-           heap=None if ctx.quick else "16g")
-    ctx.mc("FzfPipeline", "MC_Pipeline_quick_reload.cfg", timeout=1700, workers=8)
-    if not ctx.quick and prop == "C08":
-        ctx.mc("FzfPipeline", "MC_Pipeline_deep.cfg", timeout=3000, workers=12, heap="16g")
-    # the named deviations must be reachable in the model (their counterexamples document findings F5, F17, F21)
-    devs = {}
-    for cfg, inv in (("MC_Pipeline_dev.cfg", "ConvergenceStrict"), ("MC_Pipeline_dev_stale.cfg", "NeverStale"),
-                     ("MC_Pipeline_dev_lost.cfg", "NeverLost")):
-        r = ctx.tlc("FzfPipeline", cfg, workers=4, timeout=900, expect_ok=False, label="dev-" + inv)
-        if r.code != 12 or not any(inv in e for e in r.errors):
-            raise Infra("deviation config %s no longer yields its counterexample (exit %d)" % (cfg, r.code))
-        devs[inv] = "counterexample found (%d states explored)" % r.distinct
-    ctx.cov["deviation_counterexamples"] = devs
-    # cross-module lemmas: the Holds table / query lattice of the concurrent model means what FzfQuery.Matches says
-    ctx.tlc("Fzf", "MC_Fzf.cfg", workers=2, timeout=600, label="root-lemmas")
-    race = prop == "C13"
-    if not ctx.replay:
-        # E binding: TLC-enumerated matcher schedules with gate-forced cancellation points
-        matcher_sched.run_part(ctx, sample=ctx.pick(300, None) if prop == "C08" else ctx.pick(500, None), race=race)
-    fzf = ctx.build_fzf(race=race)
-    fzf_oracle = ctx.build_fzf() if race else fzf
-    rng = ctx.rng
-    nsess = ctx.pick(14, 600) if not race else ctx.pick(10, 400)
-    jobs = []
-    for sid in range(nsess):
-        n = rng.choice([3, 40, 150, 150, 1200, 1200, 8000] + ([40000] if not ctx.quick else []))
-        lines = pipeline.make_lines(rng, n)
-        slow = rng.choice([0.2, 1, 1, 3]) if not race else rng.choice([1, 3, 6])
-        sched = pipeline.make_schedule(rng, lines, slow)
-        nrel = rng.choice([0, 0, 1, 2]) if not race else 0
-        relines = [pipeline.make_lines(rng, rng.choice([0, 5, 120, 900])) for _ in range(nrel)]
-        rescheds = [pipeline.make_schedule(rng, rl, slow) for rl in relines]
-        steps = pipeline.make_steps(rng, rng.randint(6, 30), rng.choice([0.3, 1, 2]), reloads=nrel, excludes=rng.random() < 0.5)
-        if sid % 3 == 1:       # directed scenarios: result-cache key collisions / exclude-reload-same-query
-            kind = "cachekeys" if (sid % 2 == 1 or race) else ("exclude-reload" if sid % 4 == 0 else "exclude-race")
-            if kind == "cachekeys" and not race and sid % 12 == 7:
-                kind = "nth-cache"
-            n = rng.choice([150, 330, 1200])
-            lines = pipeline.make_lines(rng, n, sparse=True)
-            sched = pipeline.make_schedule(rng, lines, 0.2)
-            if kind == "exclude-race":      # keep the loader busy (a burst every few ms) so that the coordinator naps between rounds
-                lines = pipeline.make_lines(rng, 600, sparse=True)
-                sched = [{"sleep": 0.004, "lines": lines[i:i + 2]} for i in range(0, len(lines), 2)]
-            nrel = 1 if kind == "exclude-reload" else 0
-            relines = [pipeline.make_lines(rng, rng.choice([n, n, 200]), sparse=True) for _ in range(nrel)]
-            rescheds = [pipeline.make_schedule(rng, rl, 0.2) for rl in relines]
-            if nrel and (sid % 8 == 4 or rng.random() < 0.5):     # a reload of exactly the same size arriving in one burst
-                relines = [pipeline.make_lines(rng, n, sparse=True)]
-                rescheds = [[{"sleep": 0, "lines": relines[0]}]]
-            steps = pipeline.scenario_steps(rng, kind, nrel)
-        jobs.append((sid, lines, sched, steps, relines, rescheds))
-    if ctx.replay:
-        rp = json.load(open(ctx.replay))["case"]
-        acc, devs, res = validate(ctx, rp["events"], rp["table"], "replay")
-        if acc < len(rp["events"]):
-            ctx.violation("recorded trace rejected again at event %d: %s" % (acc, json.dumps(rp["events"][acc])[:400]), rp)
-        ctx.cov["distinct_nontrivial"] = 2
-        ctx.cov["evaluations"] = len(rp["events"])
-        ctx.sample(rp["events"][:3])
-        return "model_checking"
+DIRECTED = ["cachekeys", "exclude-reload", "nth-cache", "exclude-race", "cachekeys", "reload-race"]
 
+
+def directed_kind(sid, race):
+    return "cachekeys" if race else DIRECTED[(sid // 3) % len(DIRECTED)]
+
+
+def make_job(ctx, rng, sid, race, kind=None):
+    n = rng.choice([3, 40, 150, 150, 1200, 1200, 8000] + ([40000] if not ctx.quick else []))
+    lines = pipeline.make_lines(rng, n)
+    slow = rng.choice([0.2, 1, 1, 3]) if not race else rng.choice([1, 3, 6])
+    sched = pipeline.make_schedule(rng, lines, slow)
+    nrel = rng.choice([0, 0, 1, 2]) if not race else 0
+    relines = [pipeline.make_lines(rng, rng.choice([0, 5, 120, 900])) for _ in range(nrel)]
+    rescheds = [pipeline.make_schedule(rng, rl, slow) for rl in relines]
+    steps = pipeline.make_steps(rng, rng.randint(6, 30), rng.choice([0.3, 1, 2]), reloads=nrel, excludes=rng.random() < 0.5)
+    if sid % 3 == 1 or kind:       # directed scenarios: result-cache key collisions / exclude-reload-same-query / races on the event box
+        kind = kind or directed_kind(sid, race)
+        n = rng.choice([150, 330, 1200])
+        lines = pipeline.make_lines(rng, n, sparse=True)
+        sched = pipeline.make_schedule(rng, lines, 0.2)
+        if kind in ("exclude-race", "reload-race"):
+            # keep the loader busy (a burst every few ms) so that the coordinator naps between rounds
+            lines = pipeline.make_lines(rng, 600, sparse=True)
+            sched = [{"sleep": 0.004, "lines": lines[i:i + 2]} for i in range(0, len(lines), 2)]
+        nrel = 1 if kind in ("exclude-reload", "reload-race") else 0
+        relines = [pipeline.make_lines(rng, rng.choice([n, n, 200]), sparse=True) for _ in range(nrel)]
+        rescheds = [pipeline.make_schedule(rng, rl, 0.2) for rl in relines]
+        if kind == "exclude-reload" and (sid % 8 == 4 or rng.random() < 0.5):     # a reload of exactly the same size arriving in one burst
+            relines = [pipeline.make_lines(rng, n, sparse=True)]
+            rescheds = [[{"sleep": 0, "lines": relines[0]}]]
+        steps = pipeline.scenario_steps(rng, kind, nrel)
+    return (sid, lines, sched, steps, relines, rescheds)
+
+
+def run_jobs(ctx, jobs, fzf, fzf_oracle, race, label):
+    """Runs the sessions, projects their hook traces, builds the oracle tables and validates everything with
+    Trace_Pipeline; violations are recorded on ctx.  Returns (events, results)."""
     def do(job):
         sid, lines, sched, steps, relines, rescheds = job
         tr, get, cmdmap = pipeline.run_session(ctx, fzf, sid, lines, sched, steps, race_log=race, reload_scheds=rescheds)
@@ -121,7 +96,58 @@ def run(ctx, prop="C08"):
         bounds.append((len(events), len(events) + len(evs), sid))
         events += evs
         table.update(tb)
-    report_rejections(ctx, events, table, bounds, results, jobs, "all")
+    report_rejections(ctx, events, table, bounds, results, jobs, label)
+    return events, results
+
+
+def item_history_part(ctx, n=3):
+    """For C05 (history independence at process level): sessions in which the same items are matched repeatedly under
+    changing queries and --nth settings (per-item token cache, per-chunk result cache, merger cache); every published
+    list must equal a fresh `fzf --filter` run with the options then in force."""
+    fzf = ctx.build_fzf()
+    rng = ctx.rng
+    jobs = [make_job(ctx, rng, 900 + i, False, kind=("nth-cache" if i % 3 != 2 else "cachekeys")) for i in range(n)]
+    events, results = run_jobs(ctx, jobs, fzf, fzf, False, "c05-items")
+    return len(jobs), len(events)
+
+
+def run(ctx, prop="C08"):
+    ctx.mc("FzfPipeline", "MC_Pipeline_quick.cfg" if ctx.quick else "MC_Pipeline.cfg", timeout=3000, workers=8 if ctx.quick else 12,
+           heap=None if ctx.quick else "16g")
+    ctx.mc("FzfPipeline", "MC_Pipeline_quick_reload.cfg", timeout=1700, workers=8)
+    if not ctx.quick and prop == "C08":
+        ctx.mc("FzfPipeline", "MC_Pipeline_deep.cfg", timeout=3000, workers=12, heap="16g")
+    # the named deviations must be reachable in the model (their counterexamples document findings F5, F17, F21)
+    devs = {}
+    for cfg, inv in (("MC_Pipeline_dev.cfg", "ConvergenceStrict"), ("MC_Pipeline_dev_stale.cfg", "NeverStale"),
+                     ("MC_Pipeline_dev_lost.cfg", "NeverLost")):
+        r = ctx.tlc("FzfPipeline", cfg, workers=4, timeout=900, expect_ok=False, label="dev-" + inv)
+        if r.code != 12 or not any(inv in e for e in r.errors):
+            raise Infra("deviation config %s no longer yields its counterexample (exit %d)" % (cfg, r.code))
+        devs[inv] = "counterexample found (%d states explored)" % r.distinct
+    ctx.cov["deviation_counterexamples"] = devs
+    # cross-module lemmas: the Holds table / query lattice of the concurrent model means what FzfQuery.Matches says
+    ctx.tlc("Fzf", "MC_Fzf.cfg", workers=2, timeout=600, label="root-lemmas")
+    race = prop == "C13"
+    if not ctx.replay:
+        # E binding: TLC-enumerated matcher schedules with gate-forced cancellation points
+        matcher_sched.run_part(ctx, sample=ctx.pick(300, None) if prop == "C08" else ctx.pick(500, None), race=race)
+    fzf = ctx.build_fzf(race=race)
+    fzf_oracle = ctx.build_fzf() if race else fzf
+    rng = ctx.rng
+    nsess = ctx.pick(17, 600) if not race else ctx.pick(10, 400)
+    jobs = [make_job(ctx, rng, sid, race) for sid in range(nsess)]
+    if ctx.replay:
+        rp = json.load(open(ctx.replay))["case"]
+        acc, devs, res = validate(ctx, rp["events"], rp["table"], "replay")
+        if acc < len(rp["events"]):
+            ctx.violation("recorded trace rejected again at event %d: %s" % (acc, json.dumps(rp["events"][acc])[:400]), rp)
+        ctx.cov["distinct_nontrivial"] = 2
+        ctx.cov["evaluations"] = len(rp["events"])
+        ctx.sample(rp["events"][:3])
+        return "model_checking"
+
+    events, results = run_jobs(ctx, jobs, fzf, fzf_oracle, race, "all")
     if race:
         import glob
         reports = sorted(glob.glob(os.path.join(ctx.work, "pl-*", "race.*")))
@@ -153,9 +179,8 @@ def run(ctx, prop="C08"):
                        "non-empty result")
     ctx.cov["picks_with_two_pending_requests"] = both
     ctx.sample([e for e in events if e["ev"] in ("reset", "pick", "publish", "list", "end")][:6])
-    ctx.assumptions += ["filter mode is the yardstick (bound to the spec by C01/C04)", "no --tail / change-nth in these sessions yet"]
+    ctx.assumptions += ["filter mode is the yardstick (bound to the spec by C01/C04)", "no --tail in these sessions yet"]
     ctx.cov["sessions_with_reload"] = sum(1 for j in jobs if j[4])
-    ctx.cov["restarts_seen"] = sum(1 for sidx in results for e in results[sidx][0] if e["ev"] == "reset" and e["rev"][0] > 0 and False) 
     return "model_checking"
 
 
@@ -176,8 +201,9 @@ def report_rejections(ctx, events, table, bounds, results, jobs, label):
             s_evs, s_tb = results[sid]
             if flag == 3:
                 case = {"events": s_evs, "table": s_tb, "kf": {"finding": "F21", "site": "EvtSearchNew", "kind": "exclusion-lost-by-coalescing"}}
-                ctx.violation("session %d: an exclusion requested by the user is not in effect at quiescence (its search request was "
-                              "overwritten in the one-slot event box by the next query change before the coordinator handled it)" % sid, case)
+                ctx.violation("session %d: an exclusion or reload requested by the user is not in effect at quiescence (its search "
+                              "request was overwritten in the one-slot event box by the next query change before the coordinator "
+                              "handled it)" % sid, case)
             elif flag == 2:
                 case = {"events": s_evs, "table": s_tb, "kf": {"finding": "F17", "site": "ChunkCache", "kind": "stale-after-exclude"}}
                 ctx.violation("session %d: a result computed after an exclusion still contains the excluded item (chunk cache "
